@@ -407,6 +407,11 @@ fn upgrade_family(probes_of: &dyn Fn(&Cfg, &Menu) -> Vec<Act>, restricted: bool)
     let menu = menu_p1(1, 1);
     let p = probes_of(&cfg, &menu);
     v.push(with_old_format_seed(scen("B11/P1/F1/R0", cfg, menu, p), "0.18.2"));
+    // ... and from the oldest supported version, with a smaller menu
+    let cfg = Cfg::new(0, 2, ("0.25", "0.25"), "R0");
+    let menu = Menu { prices: vec!["2"], ..menu_p1(1, 1) };
+    let p = probes_of(&cfg, &menu);
+    v.push(with_old_format_seed(scen("B11/P1-one-price/F1/R0", cfg, menu, p), "0.16.2"));
     v
 }
 
